@@ -174,9 +174,8 @@ static void dumpGraph(const char *tag, hlim::Circuit &c, const Requests *req = n
 static const int UNK = -1; // label of a clocked source whose clock slot is empty
 
 // `ps`: physical clock source as REQUESTED (a derived clock keeps its parent's source unless it was given another name, a frequency
-// multiplier != 1 or phaseSynchronousWithParent = false).  `libPhaseFlag`: the flag hlim::DerivedClock copies from the parent clock
-// (hlim/Clock.cpp:252) - the library treats a child of a non-phase-synchronous clock as another pin even if nothing but a register
-// attribute was changed; the random generator stays away from that shape (see `c12 quirk` and checks/c12.py, assumptions).
+// multiplier != 1 or phaseSynchronousWithParent = false).  `phaseSync`: false iff the clock itself was requested with
+// phaseSynchronousWithParent = false (children of such clocks that change only register attributes share ITS source: finding F21, fixed).
 struct GClock { Clock clk; int ps; bool phaseSync = true; };
 
 struct GSig {
@@ -322,17 +321,11 @@ struct Gen {
 
 	// `samePin`: only register attributes / reset name are changed, or a frequency multiplier of 1 is given: same physical clock.
 	void addDerived(size_t parent, const ClockConfig &cfg, bool samePin) {
-		GClock c{ clocks[parent].clk.deriveClock(cfg), samePin ? clocks[parent].ps : nextPs++, clocks[parent].phaseSync };
+		GClock c{ clocks[parent].clk.deriveClock(cfg), samePin ? clocks[parent].ps : nextPs++, true };
 		clocks.push_back(c);
 		noteClock(c.clk, c.ps);
 		if (samePin) hist[clocks[parent].phaseSync ? "clk.derived.samepin" : "clk.derived.samepin.of.unsynchronised"]++;
 	}
-	// parent for a same-pin derivation: not a clock that carries the library's inherited "not phase synchronous" flag
-	size_t pickSyncParent() {
-		for (int t = 0; t < 20; t++) { size_t c = pickClock(); if (clocks[c].phaseSync) return c; }
-		return 0;
-	}
-
 	void makeClocksBase() {
 		// DesignScope keeps a default clock ("GateryDefaultClock") in scope: pins created outside any user ClockScope belong to it
 		defaultPs = nextPs;
@@ -358,13 +351,12 @@ struct Gen {
 			ClockConfig cfg;
 			switch (rng.below(7)) {
 				case 0: case 1: // only register attributes differ: same pin
-					parent = pickSyncParent();
 					cfg.resetType = rng.chance(1, 2) ? Clock::ResetType::SYNCHRONOUS : Clock::ResetType::ASYNCHRONOUS;
 					addDerived(parent, cfg, true); break;
 				case 2: // trigger/reset name differ: same pin
-					parent = pickSyncParent();
 					cfg.resetName = "rst" + std::to_string(i);
-					cfg.synchronizationRegister = true;
+					if (rng.chance(1, 2)) cfg.synchronizationRegister = true;
+					if (rng.chance(1, 3)) cfg.triggerEvent = hlim::Clock::TriggerEvent::FALLING;
 					addDerived(parent, cfg, true); break;
 				case 3:
 					cfg.frequencyMultiplier = hlim::ClockRational{ 2, 1 };
@@ -376,7 +368,6 @@ struct Gen {
 					cfg.phaseSynchronousWithParent = false;
 					addDerived(parent, cfg, false); clocks.back().phaseSync = false; hist["clk.derived.phase"]++; break;
 				default: { // frequency multiplier 1/1 given explicitly: same pin
-					parent = pickSyncParent();
 					cfg.frequencyMultiplier = hlim::ClockRational{ 1, 1 };
 					addDerived(parent, cfg, true); break;
 				}
@@ -495,7 +486,7 @@ struct Gen {
 			size_t src = domainOf(a) >= 0 ? pickClockOfPs(domainOf(a)) : pickClock();
 			size_t dstDecl = pickClockOfPs(clocks[dst].ps);
 			meet({ &a.labels }, clocks[src].ps);
-			if (clocks[dstDecl].phaseSync && rng.chance(1, 4)) {
+			if (rng.chance(1, 4)) {
 				scl::SynchronizeParams p; p.outStages = 2; p.inStage = rng.chance(1, 2);
 				size_t nclk = DesignScope::get()->getCircuit().getClocks().size();
 				UInt r = scl::synchronize(a.sig, clocks[src].clk, clocks[dstDecl].clk, p);
@@ -896,9 +887,9 @@ struct Gen {
 		}
 	}
 
-	// The shape the random generator avoids: a clock derived from a non-phase-synchronous clock, changing only a register attribute.
-	// Read from the property text ("clocks that share the same physical clock source count as one domain") parent and child are one
-	// domain and both designs are clean; the library makes the child its own pin source and rejects them.
+	// Finding F21 (fixed in /repo by 1913949; replayed first on every run through corpus/C12): a clock derived from a non-phase-synchronous
+	// clock, changing only a register attribute, is the same physical clock as its parent. hlim::DerivedClock used to copy the parent's
+	// m_phaseSynchronousWithParent, which made the child a pin source of its own, and post-processing rejected these two clean designs.
 	void buildQuirk(int which) {
 		makeClocksBase();
 		ClockConfig rc; rc.absoluteFrequency = hlim::ClockRational{ 100'000'000, 1 }; rc.name = "clkA";
